@@ -3,8 +3,48 @@ from . import core, shared, C10
 USES = ["shared"]
 
 
+from pyvc.contract import Contract
+from .core import CF, MACROS
+CPS = "csvpath/csvpaths.py"
+CF["CsvPaths"].update({"g_bl_calls": "int", "g_bl_collect": "val", "g_bl_agree": "val", "g_bl_cwnm": "val", "g_bl_pathsname": "val", "g_bl_filename": "val", "g_bl_lines": "list[val]"})
+
+
+def by_line_wrappers():
+    cs = []
+    cs.append(Contract(
+        target=f"{CPS}::CsvPaths.next_by_line", interface=True, variant="as_a_list",
+        types={"pathsname": "val", "filename": "val", "collect": "val", "if_all_agree": "val", "collect_when_not_matched": "val"},
+        modifies=["self.g_bl_calls", "self.g_bl_collect", "self.g_bl_agree", "self.g_bl_cwnm", "self.g_bl_pathsname", "self.g_bl_filename"],
+        ensures={"logged": "self.g_bl_calls == old(self.g_bl_calls) + 1 and same(self.g_bl_collect, collect) and same(self.g_bl_agree, if_all_agree) and "
+                           "same(self.g_bl_cwnm, collect_when_not_matched) and same(self.g_bl_pathsname, pathsname) and same(self.g_bl_filename, filename)",
+                 "lines": "result is self.g_bl_lines"},
+        returns="expr:self.g_bl_lines", class_fields=CF,
+        assumptions=["next_by_line yields the lines kept by the breadth-first run (union, or intersection with if_all_agree): BOUNDED in C08.bounded; here it is the list of those lines"]))
+    same_args = ("self.g_bl_calls == old(self.g_bl_calls) + 1 and same(self.g_bl_agree, if_all_agree) and same(self.g_bl_cwnm, collect_when_not_matched) and "
+                 "same(self.g_bl_pathsname, pathsname) and same(self.g_bl_filename, filename)")
+    types = {"pathsname": "val", "filename": "val", "if_all_agree": "val", "collect_when_not_matched": "val", "self.g_bl_lines": "list[val]"}
+    mods = ["self.g_bl_calls", "self.g_bl_collect", "self.g_bl_agree", "self.g_bl_cwnm", "self.g_bl_pathsname", "self.g_bl_filename"]
+    cs.append(Contract(
+        target=f"{CPS}::CsvPaths.collect_by_line", types=types, modifies=mods,
+        ensures={"one_breadth_first_run_with_the_callers_settings_collecting": same_args + " and self.g_bl_collect is True",
+                 "returns_exactly_the_lines_the_run_kept_in_order": "result == self.g_bl_lines"},
+        invariants={0: ["lines == self.g_bl_lines[0:_i0]"]},
+        list_literals={"lines": "list[val]"}, callee_variants={"CsvPaths.next_by_line": "as_a_list"},
+        class_fields=CF, macros=MACROS, returns="list[val]", native={"skip": True},
+        property_clauses={"one_breadth_first_run_with_the_callers_settings_collecting": "C08,C07", "returns_exactly_the_lines_the_run_kept_in_order": "C08,C07"},
+        doc={"returns_exactly_the_lines_the_run_kept_in_order": "C08: 'the breadth-first methods return to the caller the union (or, with if_all_agree, the intersection) of the members' lines' -- "
+                                                                "collect_by_line adds and drops nothing"}))
+    cs.append(Contract(
+        target=f"{CPS}::CsvPaths.fast_forward_by_line", types=types, modifies=mods,
+        ensures={"one_breadth_first_run_with_the_callers_settings_not_collecting": same_args + " and self.g_bl_collect is False"},
+        invariants={0: ["True"]}, callee_variants={"CsvPaths.next_by_line": "as_a_list"},
+        class_fields=CF, macros=MACROS, returns="none", native={"skip": True},
+        property_clauses={"one_breadth_first_run_with_the_callers_settings_not_collecting": "C08,C07"}))
+    return cs
+
+
 def contracts():
-    return core.select(C10.contracts(), ("CsvPaths.clear_run_coordination",)) + core.select(core.contracts(), ("CsvPath._consider_line",))
+    return core.select(C10.contracts(), ("CsvPaths.clear_run_coordination",)) + core.select(core.contracts(), ("CsvPath._consider_line",)) + by_line_wrappers()
 
 
 def bounded(tier, seed):
@@ -17,6 +57,7 @@ def bounded(tier, seed):
 LEVEL = "other"
 EXPLANATION = ("Bounded only for the schedule equivalence: the property is a relation between three schedules of the real code and is checked by running them "
                "(alone / serial / breadth-first) on a stated finite set of groups. Proved pieces: the per-line step both schedules call (_consider_line, with its "
-               "own clauses) and clear_run_coordination clearing the cross-path signals between runs. The nested generator loop of next_by_line "
+               "own clauses), clear_run_coordination clearing the cross-path signals between runs, and the two wrappers collect_by_line / fast_forward_by_line (one breadth-first run with "
+               "the caller's settings; exactly the lines it kept, in order). The nested generator loop of next_by_line "
                "(try/except around the member loop, tuple-typed member list) is not under contract.")
 ASSUMPTIONS = ["members share no mutable state (class-level registries are looked at in C19)"]
